@@ -124,7 +124,7 @@ def run_plan(plan: dict, replay=None) -> dict:
         inputs = None
         if plan.get("train"):
             cc_ = spec["conns"][plan["train"]["conn"]]
-            u_, v_ = names[cc_["src"]], names[cc_["dst"]]
+            u_, v_ = (cc_.get("name") or names[cc_["src"]]), names[cc_["dst"]]  # key of the connection in the receiver's inputs
             gi = ro.episodes[e].gs0.inputs
             i_ = gi[v_][u_]
             inputs = gi.copy({v_: gi[v_].copy({u_: i_.replace(delay_dist=i_.delay_dist.replace(alpha=plan["train"]["alpha"]))})})
